@@ -54,11 +54,11 @@ class Recorder:
 
 
 def sched_case(fn, seed=0, policy='random', p_switch=0.25, line_p=0.0, horizon=300.0, max_steps=3_000_000,
-               trace=False):
+               trace=False, line_focus=(), line_focus_p=0.0):
     """Run fn(sched) under a fresh scheduler.  Returns (result, abort, sched)."""
     from vf import detsched as ds
     s = ds.Scheduler(seed=seed, policy=policy, p_switch=p_switch, line_p=line_p, horizon=horizon,
-                     max_steps=max_steps, trace=trace)
+                     max_steps=max_steps, trace=trace, line_focus=line_focus, line_focus_p=line_focus_p)
     box = {}
 
     def body():
